@@ -114,10 +114,28 @@ def run(tier, wd):
                      "x the same line with two adjacent occurrences of different options transposed (TLC confirms the item readings differ by exactly "
                      "that transposition); spellings are random, in 40% of the groups the pair is re-spelled/folded too; 15% extra groups end in a valued "
                      "option without value next to a one-token occurrence of another option, in both orders; non-trivial = the reference accepts")
+    # the same law one level up: two occurrences in front of a sub command name, in both orders (CmdTree.tla says what runs and what
+    # every level binds; the two orders must agree with it and so with each other)
+    from vlib import tree as T
+    from props import treecommon as tc
+    st = T.swap_tree()
+    trs_t, rows_t = tc.run_tree(rep, wd, binpath, ["x"], 1, ["continue"], "c11-tree", trees=[st])
+    for c, r in rows_t:
+        if r.get("skipped"):
+            continue
+        js = [j for j in T.judge(c, r) if j[0] in ("routing", "bindings")]
+        if js and not c.get("greedy"):
+            rep.violation(tc.describe(trs_t, c) + ": " + "; ".join(t for _, t in js), tc.replay_obj(trs_t, c))
+    rep.cov["command_tree_vectors"] = len(rows_t)
     rep.cov["specs"] = len(specs)
     rep.assumptions += ["standard program (see C01)", "specs without a spec-level --"]
     return rep.finish()
 
 
 def replay(path, wd):
+    import json
+    with open(path) as f:
+        if json.load(f)["replay"].get("engine") == "tree":
+            from props import treecommon as tc
+            return tc.replay(path, wd, ("routing", "bindings"))
     return gc.rerun_replay(path, wd)
